@@ -385,6 +385,15 @@ impl Parser {
 
             label.extend(tokens);
 
+            // The label is pasted in front of `(lex)`: it has to be an expression
+            if let Err(err) = syn::parse2::<syn::Expr>(label.clone()) {
+                self.err(
+                    format!("Expected a callback function or closure: {err}"),
+                    span,
+                );
+                return None;
+            }
+
             return Some(Callback::Label(label));
         }
 
@@ -426,6 +435,13 @@ impl Parser {
             }
             _ => body.into_iter().collect(),
         };
+
+        // The body is pasted into a block: it has to be a sequence of statements (a closure with
+        // a return type, `|lex| -> T { .. }`, is not: use a function for that)
+        if let Err(err) = syn::parse::Parser::parse2(syn::Block::parse_within, body.clone()) {
+            self.err(format!("Invalid callback body: {err}"), span);
+            return None;
+        }
 
         let inline = InlineCallback { arg, body, span };
 
